@@ -87,7 +87,7 @@ static void obs_client(int k) {
     sent = 1;
     for (r = 0; r < nr; r++) {
       unsigned x, y, w, h; int32_t enc;
-      if (b->n - o < 12) { printf(" | %d: TRUNCATED", k); return; }
+      if (b->n - o < 12) { printf(" | %d: TRUNCATED announced=%u delivered=%u", k, nr, r); return; }
       x = vs_get16(b->p + o); y = vs_get16(b->p + o + 2); w = vs_get16(b->p + o + 4); h = vs_get16(b->p + o + 6);
       enc = (int32_t)vs_get32(b->p + o + 8);
       if (enc == 0) {
